@@ -130,8 +130,9 @@ def _replay_model(x: Any) -> str:
             f"print({name}().loads({name}().dumps(x)) == x)")
 
 
-def _report(ctx, fails: List[dict], clause_prefix: str) -> None:
-    """fails: {clause, what, size, witness, signature, replay}"""
+def _report(ctx, fails: List[dict], clause_prefix: str, confirm=None) -> None:
+    """fails: {clause, what, size, witness, signature, replay}; `confirm(f)` re-runs the real code on the failing input in
+    the reporting process and says whether the failure shows again (a finding that does not replay is dropped)."""
     by: Dict[str, List[dict]] = {}
     for f in fails:
         by.setdefault(f["clause"], []).append(f)
@@ -143,6 +144,8 @@ def _report(ctx, fails: List[dict], clause_prefix: str) -> None:
             if f["signature"] in seen:
                 continue
             seen.add(f["signature"])
+            if confirm is not None and not confirm(f):
+                continue
             ctx.violation(obligation=f"bounded/{clause_prefix}/{clause}/{j}", message=f"{clause}: {f['what']}",
                           witness=f["witness"], replayed=True, signature=f"{clause}|{f['signature']}", replay_code=f["replay"])
             j += 1
@@ -250,7 +253,7 @@ def _eval_item(item) -> dict:
             fails.append({"clause": clause, "what": f"{pyexpr(obj)}: {what}", "size": len(pyexpr(obj)),
                           "witness": {"produced_by": {"expression": expr, "requirement_constraints": rc, "format_constraints": list(fc)},
                                       "object": pyexpr(obj), "problem": what},
-                          "signature": pyexpr(obj), "replay": _replay_model(obj)})
+                          "signature": pyexpr(obj), "replay": _replay_model(obj), "item": item})
     return {"produced": True, "repr": pyexpr(res), "fails": fails,
             "none_outcome": res.requirement_constraint_evaluation_result.requirement_constraints_fulfilled is None}
 
@@ -267,8 +270,8 @@ TREE_REPLAY = ("import asyncio, logging; logging.disable(logging.CRITICAL)\n"
                "from ahbicht.json_serialization.tree_schema import TreeSchema\n"
                "configure_inject(); set_cer(make_cer(hints=HINTS, packages=PKGS))\n"
                "t = asyncio.run(parse({expr!r}, resolve_packages={rp}, replace_time_conditions={rt}))\n"
-               "d = TreeSchema().dump(t); print(d)\n"
-               "t2 = TreeSchema().load(d); print(t2); print(t2 == t)\n"
+               "d = TreeSchema().dump(t); print(TreeSchema().dumps(t))\n"
+               "t2 = TreeSchema().load(d); print(t); print(t2); print(t2 == t)\n"
                "print(TreeSchema().loads(TreeSchema().dumps(t)) == t)")
 
 
@@ -367,13 +370,14 @@ def _tree_item(expr: str) -> dict:
         replay = (TREE_REPLAY.format(expr=expr, rp=rp, rt=rt) if rp is not None else
                   f"from ahbicht.expressions.ahb_expression_parser import *\nfrom ahbicht.expressions.condition_expression_parser import *\n"
                   f"from ahbicht.json_serialization.tree_schema import TreeSchema\nt = {how}({expr!r})\n"
+                  f"print(TreeSchema().dumps(t))\n"
                   f"t2 = TreeSchema().load(TreeSchema().dump(t)); print(t); print(t2); print(t2 == t)")
         sigs.append(json.dumps(wire(tree), ensure_ascii=False, sort_keys=True))
 
         def fail(clause: str, what: str):
             fails.append({"clause": clause, "what": f"{expr!r} via {how}: {what}", "size": len(expr),
                           "witness": {"expression": expr, "tree_from": how, "problem": what},
-                          "signature": f"{expr}|{how}", "replay": replay})
+                          "signature": f"{expr}|{how}", "replay": replay, "expr": expr})
 
         back = None
         n += 1
@@ -470,7 +474,13 @@ def run(ctx, tier: str, seed: int) -> None:
                           "witness": {"object": pyexpr(obj), "problem": what, "produced_by": "extract_categorized_keys / "
                                       "generate_possible_content_evaluation_results"},
                           "signature": pyexpr(obj), "replay": _replay_model(obj)})
-    _report(ctx, fails, "produced")
+    def confirm_produced(f: dict) -> bool:
+        if "item" not in f:
+            return True  # extraction / generation ran in this process already
+        again = _eval_item(f["item"])
+        return again["produced"] and any(g["clause"] == f["clause"] and g["signature"] == f["signature"] for g in again["fails"])
+
+    _report(ctx, fails, "produced", confirm_produced)
     distinct = {r["repr"] for r in produced} | {pyexpr(o) for o in extra_objects}
     n_none = len({r["repr"] for r in produced if r["none_outcome"]})
     not_produced = len(results) - len(produced)
@@ -490,7 +500,11 @@ def run(ctx, tier: str, seed: int) -> None:
     exprs = _tree_expressions(tier, seed)
     results = pmap(_tree_item, exprs)
     fails = [f for r in results for f in r["fails"]]
-    _report(ctx, fails, "trees")
+    def confirm_tree(f: dict) -> bool:
+        again = _tree_item(f["expr"])
+        return any(g["clause"] == f["clause"] and g["signature"] == f["signature"] for g in again["fails"])
+
+    _report(ctx, fails, "trees", confirm_tree)
     sigs = {s for r in results for s in r["sigs"]}
     ctx.bounded("TreeSchema: load(dump(t)) == t, loads(dumps(t)) == t, evaluate(round-tripped) == evaluate(original)",
                 evaluations=sum(r["n"] for r in results), distinct_nontrivial=len(sigs),
